@@ -5,6 +5,7 @@ import (
 	"encoding/json"
 	"fmt"
 	"io"
+	"runtime"
 	"testing"
 	"time"
 
@@ -71,8 +72,47 @@ func c12DecodeInit() {
 	}
 }
 
+// c12AllocCheck: decoding a short input must not allocate memory in proportion to a number the client merely
+// announces (the decoder runs again for every received segment of an incomplete request, inside the event loop
+// that serves everybody else).
+func c12AllocCheck(data []byte, maxLen int) []Discrepancy {
+	if len(data) > 4096 {
+		return nil
+	}
+	digits, run := 0, 0
+	for _, c := range data {
+		if c >= '0' && c <= '9' {
+			run++
+			if run > digits {
+				digits = run
+			}
+		} else {
+			run = 0
+		}
+	}
+	if digits < 5 {
+		return nil
+	}
+	c12DecodeInit()
+	var before, after runtime.MemStats
+	rc := &core.CRespCodec{MsgMaxLength: maxLen}
+	runtime.ReadMemStats(&before)
+	func() {
+		defer func() { recover() }()
+		rc.Decode(&memConn{data: data})
+	}()
+	runtime.ReadMemStats(&after)
+	if d := after.TotalAlloc - before.TotalAlloc; d > 4<<20 {
+		return []Discrepancy{disc("C12/decoder-allocation-amplified", "one decode attempt on the %d-byte input %s allocated %d bytes", len(data), q(data), d)}
+	}
+	return nil
+}
+
 func c12DecodeExec(data []byte, maxLen int) (ds []Discrepancy) {
 	c12DecodeInit()
+	if ds := c12AllocCheck(data, maxLen); ds != nil {
+		return ds
+	}
 	defer func() {
 		if r := recover(); r != nil {
 			ds = append(ds, disc("C12/decoder-panic", "the request decoder panicked on %s: %v", q(data), r))
